@@ -28,7 +28,7 @@ from .. import alpha, core, sxvm
 LEVEL = "exploration"
 RULE = ("(equation set, generator, option combination) x function x input lattice; inputs: per-argument patterns {zeros, ones, 0.7 e1, "
         "alternating, seeded generic, x50, x1e-9, negative generic} swept per argument with the others cycling + full product of 3 patterns "
-        "on the first arguments (cap 2500 per function); process environments {python -O, -OO, TMPDIR on another filesystem, TMPDIR missing, hash seed 1, locale de_DE} x all sets x 3 option sets; 13 spellings of the destination directory (pathlib, relative, trailing separator, space, unicode, symlink, stale contents, ...) x 4 sets. non-trivial = input not all zeros; distinct by (function, raw input bytes)")
+        "on the first arguments (cap 2500 per function); process environments {python -O, -OO, TMPDIR on another filesystem, TMPDIR missing, hash seed 1, locale de_DE} x all sets x 3 option sets; 13 spellings of the destination directory (pathlib, relative, trailing separator, space, unicode, symlink, stale contents, ...) x 6 sets, option values as numpy.bool_ / comparison results / 0-1; 4 pairs of generators in two threads (absolute and relative destinations), all interleavings with <= 1 preemption. non-trivial = input not all zeros; distinct by (function, raw input bytes)")
 ASSUMPTIONS = ["gcc, libm and ctypes trusted; NaN *arguments* are CasADi's contract and not judged",
                "mex=True output cannot be compiled here (no MATLAB headers): generation and function-set completeness only",
                "thorough tier: every option combination is generated and its function set checked; compile+run on the tier's covering subset"]
